@@ -13,7 +13,7 @@ P = {
          "For files up to 150 entries every key-order equivalence class of probes (each key, each gap, before-first, after-last) is sought with GE/LE/EQ on a fresh and on a reset cursor and compared with the model; larger files use 300 sampled classes. The files themselves are sampled.",
          "Trusted: the reference model (partition_point on a sorted Vec). Probe classes are complete with respect to byte-string order, which is all the code compares.", "5 C02"),
  "C03": ("exploration", "stateful / model-based testing: exhaustive breadth-first exploration of reachable cursor states per generated file + random operation histories, judged by a position-machine model",
-         "(a) For each generated small deep file all reachable (cursor fingerprint, model position) states x all operations of a complete alphabet are executed and compared with the model (BFS to fixpoint, shortest counterexample histories); clone independence is checked on every transition. (b) 200-operation run-biased histories on larger files; (c) the same on version-1 encodings. Thorough adds a libFuzzer campaign (fuzz_cursor) with the same oracle in the target. Exhaustive per explored file only.",
+         "(a) For each generated small deep file all reachable (cursor fingerprint, model position) states x all operations of a complete alphabet are executed and compared with the model (BFS to fixpoint, shortest counterexample histories); clone independence is checked on every transition. (b) 200-operation run-biased histories on larger files; (c) the same on version-1 encodings; (d) histories on V2 and V1 encodings during which one read or seek of the source fails: errors are accepted from then on, every Ok result is still judged. Thorough adds a libFuzzer campaign (fuzz_cursor) with the same oracle in the target. Exhaustive per explored file only.",
          "Needs hook H3 (read-only fingerprint) for (a); (b) is hook-free. Relative moves after a None are executed but not judged, as the property leaves them unspecified.", "5 C03, 6.1"),
  "C04": ("exploration", "property-based testing (proptest): generated files x bound pairs + bounded-exhaustive small-scope enumeration (every key set over {00,ff} keys up to 2 bytes x every pair of bounds over strings up to 3 bytes, 3 layouts); oracle = filter over the reference model (both directions)",
          "Forward and reverse range iterators are compared with a model filter for all 9 bound-kind pairs over independent probes, with dedicated generators for equal, inverted, adjacent, stored, absent and out-of-span bounds.",
@@ -22,13 +22,13 @@ P = {
          "Forward and reverse prefix iterators are compared with a starts_with filter; generators force empty, all-FF, FF-terminated prefixes and prefixes whose successor string is itself a stored key.",
          "Trusted: the model filter; key generators concentrate on a five-letter alphabet {00,01,7f,fe,ff} to make prefix relations dense.", "5 C05"),
  "C06": ("exploration", "property-based testing (proptest): generated key universes x overlapping sources x merge functions with a call log + bounded-exhaustive enumeration of every key-to-source assignment over 3 keys x 3 sources; oracle = union model, exactly-once merge calls in source order",
-         "0..8 sources drawn as random subsets of a key universe, each written with its own configuration, are merged with four merge functions (owned and borrowed results); the call log proves one call per shared key with the values in the order the sources were added; write_into_stream_writer is read back.",
+         "0..8 sources drawn as random subsets of a key universe, each written with its own configuration and added as a fresh cursor or as a cursor that was moved around and then reset, are merged with four merge functions (owned and borrowed results); the call log proves one call per shared key with the values in the order the sources were added; write_into_stream_writer is read back.",
          "Merge functions used return a lone value unchanged, as the property requires. Trusted: BTreeMap union model.", "5 C06"),
  "C07": ("exploration", "property-based testing (proptest): generated insert sequences x sorter configurations (hooked small budgets, public API) + bounded-exhaustive enumeration of every insert sequence of length <= 7 (thorough 9) over 3 keys x 5 value sizes (4 spill rhythms + empty values) x max_nb_chunks 1..3 x stable/unstable x 4 merge functions; oracle = group-by-key model with insertion order, three exits compared",
-         "Three identically fed sorters are drained through streaming, write_into_stream_writer and into_reader_cursors (merged by the harness); each must equal the model (stable: insertion order; unstable: permutation) for budgets of 256 B..1 MiB, realloc on/off, max_nb_chunks 1..25, sequential/parallel, all chunk codecs, CursorVec/TempFile/instrumented chunk storage.",
+         "Three identically fed sorters are drained through streaming, write_into_stream_writer and into_reader_cursors (merged by the harness); each must equal the model (stable: insertion order; unstable: permutation) for budgets of 256 B..1 MiB, realloc on/off, max_nb_chunks 1..25, 12 setter orders (chunk_creator first or last), tagged and raw (possibly empty) values, sequential/parallel, all chunk codecs, CursorVec/TempFile/instrumented chunk storage.",
          "Hook H1 shrinks budgets so that spills and chunk merges happen after tens of inserts; a public-API stage runs without hooks. rayon schedules are sampled, not enumerated.", "5 C07"),
  "C08": ("exploration", "property-based testing (proptest): long generated insert streams with an instrumented chunk creator; invariants checked after every insert",
-         "After every insert: bytes inserted since the last spill <= 2x budget (realloc) / <= budget (no realloc); live chunks <= max_nb_chunks+2 at every create and after the final flush; spilled data implies create() calls. Hooked budgets 256 B..16 KiB plus the real 10 MiB clamp with 40..80 MiB inserted.",
+         "After every insert: bytes inserted since the last spill <= 2x budget (realloc) / <= budget (no realloc); live chunks <= max_nb_chunks+2 at every create and after the final flush; spilled data implies create() calls. Hooked budgets 256 B..16 KiB plus the real 10 MiB clamp with 40..80 MiB inserted; the builder's setters, chunk_creator included, are called in 12 different orders.",
          "Domain: entry <= budget/4, initial capacity <= budget (DESIGN 6.5). 'Unbounded' volume is sampled up to 80 MiB / 20 000 inserts.", "5 C08, 6.5"),
  "C09": ("exploration", "differential testing against an independent format decoder and the frozen grenad 0.4.7 (both directions), inputs from proptest generators",
          "Each generated file is decoded by a decoder written from the format description (shares no code with the tree) with every structural check on, read by grenad 0.4.7, and the same entries written by 0.4.7 are read by the current reader (scans + seek alphabet).",
